@@ -33,6 +33,7 @@ func init() {
 
 		return m
 	}
+	vtModels["tcpclose"] = func(cfg json.RawMessage) vtModel { return newTCPCloseModel(cfg) }
 	csScenarios["agent-close-race"] = func() zzmc.Scenario { return c08closeRace(false) }
 	csScenarios["agent-close-race-handler"] = func() zzmc.Scenario { return c08closeRace(true) }
 }
@@ -500,6 +501,9 @@ func checkC08(c *runCtx) {
 	stunURL, turnURL := "stun:198.51.100.1:3478", "turn:198.51.100.1:3478?transport=udp"
 	vtSearch(c, p, vtSpec{Name: "gathering host + srflx, strict census", Model: "gather-strict", Cfg: gatherCfg{Ifaces: gIfacesBasic, NetTypes: []string{"udp4"}, CandTypes: []string{"host", "srflx"}, URLs: []string{stunURL}, Depth: depth}, Deadline: dl, DeathFinding: c08death})
 	vtSearch(c, p, vtSpec{Name: "gathering relay, strict census", Model: "gather-strict", Cfg: gatherCfg{Ifaces: gIfacesBasic, NetTypes: []string{"udp4"}, CandTypes: []string{"relay"}, URLs: []string{turnURL}, Depth: depth}, Deadline: dl, DeathFinding: c08death})
+	// a passive ICE-TCP candidate (TCPMux) whose peer stops reading: writes block inside the agent's loop
+	vtSearch(c, p, vtSpec{Name: "passive TCP candidate, peer stops reading, close at every position", Model: "tcpclose",
+		Cfg: gatherCfg{Ifaces: gIfacesBasic, NetTypes: []string{"tcp4"}, CandTypes: []string{"host"}, TCPMux: "10.0.0.1:7001", Depth: depth + 2}, Deadline: dl})
 	if os.Getenv("VERIF_VARIANT") == "instr" {
 		b := 2
 		if !c.quick() {
@@ -512,4 +516,176 @@ func checkC08(c *runCtx) {
 		c.capHit("built without instrumentation: the interleaving scenarios were not run")
 	}
 	_ = time.Second
+}
+
+// ---------------------------------------------------------------- passive ICE-TCP candidate whose peer stops reading
+
+type tcpCloseModel struct {
+	*gatherWorld
+	depth    int
+	client   *pipeEnd
+	server   *pipeEnd
+	wedged   bool
+	done     bool
+	nreq     int
+}
+
+func newTCPCloseModel(raw json.RawMessage) *tcpCloseModel {
+	m := &tcpCloseModel{gatherWorld: newGatherWorld(raw)}
+	m.strict = true
+	if _, err := m.a.StartAccept(vUfragB, vPwdB); err != nil {
+		panic(err)
+	}
+	synctest.Wait()
+
+	return m
+}
+
+func (m *tcpCloseModel) Enabled() []string {
+	if m.done || (m.cfg.Depth > 0 && m.depth >= m.cfg.Depth) {
+		return nil
+	}
+	evs := []string{"close:api", "close:graceful"}
+	if m.wedged {
+		return evs // the agent's loop is busy in a socket write: only Close can be asked for
+	}
+	if st, _ := m.a.GetGatheringState(); st == GatheringStateNew {
+		evs = append(evs, "gather")
+	}
+	if m.client == nil {
+		if len(m.localCands()) > 0 {
+			evs = append(evs, "connect")
+		}
+	} else {
+		evs = append(evs, "request", "stopreading", "hangup")
+	}
+	evs = append(evs, "tick", "restart")
+
+	return evs
+}
+
+func (m *tcpCloseModel) request() []byte {
+	m.nreq++
+	lu, lp, _ := m.a.GetLocalUserCredentials()
+	msg, err := stun.Build(stun.BindingRequest, stun.TransactionID, stun.NewUsername(lu+":"+vUfragB), AttrControlling(7), PriorityAttr(1845501695),
+		stun.NewShortTermIntegrity(lp), stun.Fingerprint)
+	if err != nil {
+		panic(err)
+	}
+
+	return c15frame(msg.Raw)
+}
+
+func (m *tcpCloseModel) Apply(ev string) {
+	m.depth++
+	switch ev {
+	case "gather":
+		if err := m.a.GatherCandidates(); err != nil {
+			m.problem("", "GatherCandidates: %v", err)
+		}
+	case "connect":
+		c, s := newPipe(&net.TCPAddr{IP: net.ParseIP("192.0.2.9").To4(), Port: 40001}, m.lis.addr)
+		m.client, m.server = c, s
+		m.lis.ch <- s
+		_, _ = c.Write(m.request())
+	case "request":
+		_, _ = m.client.Write(m.request())
+	case "stopreading":
+		m.server.mu.Lock()
+		m.server.blockW = true
+		m.server.mu.Unlock()
+	case "hangup":
+		_ = m.client.Close()
+		m.client = nil
+	case "tick":
+		if m.contact != nil {
+			go m.contact() // may block inside the loop if the peer has stopped reading
+		}
+	case "restart":
+		if err := m.a.Restart("", ""); err != nil {
+			m.problem("", "Restart: %v", err)
+		}
+		m.client = nil
+	case "close:api", "close:graceful":
+		var err error
+		if ev == "close:graceful" {
+			err = m.a.GracefulClose()
+		} else {
+			err = m.a.Close()
+		}
+		if err != nil {
+			m.problem("", "%s returned %v", ev, err)
+		}
+		m.closed, m.done = true, true
+		synctest.Wait()
+		if len(m.states) == 0 || m.states[len(m.states)-1] != ConnectionStateClosed {
+			m.problem("", "after %s the last notified state is not Closed (%v)", ev, m.states)
+		}
+		if _, err := m.a.GetLocalCandidates(); !errors.Is(err, ErrClosed) {
+			m.problem("", "after %s GetLocalCandidates returned %v", ev, err)
+		}
+		if m.server != nil && !m.client0closedByMux() {
+			m.problem("", "after %s the TCP connection of the passive candidate is still open", ev)
+		}
+	default:
+		panic("unknown event " + ev)
+	}
+	synctest.Wait()
+	// is the agent's loop stuck in a write to the peer that stopped reading?
+	if m.server != nil && !m.done {
+		m.server.mu.Lock()
+		blocked := m.server.blockW
+		m.server.mu.Unlock()
+		if blocked && (ev == "request" || ev == "tick" || ev == "connect") {
+			m.wedged = m.loopBusy()
+		}
+	}
+}
+
+func (m *tcpCloseModel) client0closedByMux() bool {
+	if m.client == nil {
+		return true
+	}
+
+	return m.client.closedByPeer()
+}
+
+// loopBusy: a task submitted now would not be taken (the loop goroutine is inside a task).
+func (m *tcpCloseModel) loopBusy() bool {
+	ctx, cancel := context.WithCancel(context.Background())
+	cancel()
+	ran := false
+	_ = m.a.loop.Run(ctx, func(context.Context) { ran = true })
+
+	return !ran && m.server.blockW
+}
+
+func (m *tcpCloseModel) Key() (string, []int) {
+	st, _ := "", 0
+	if !m.wedged && !m.done {
+		g, _ := m.a.GetGatheringState()
+		st = g.String()
+	}
+	blocked := false
+	if m.server != nil {
+		m.server.mu.Lock()
+		blocked = m.server.blockW
+		m.server.mu.Unlock()
+	}
+
+	return fmt.Sprintf("gs=%s cs=%v client=%v blocked=%v wedged=%v done=%v locals=%d", st, len(m.states), m.client != nil, blocked, m.wedged, m.done, len(m.candLog)), []int{m.depth}
+}
+
+func (m *tcpCloseModel) Problems() []vtProblem {
+	p := m.problems
+	m.problems = nil
+
+	return p
+}
+func (m *tcpCloseModel) Finish() []vtProblem { return nil }
+func (m *tcpCloseModel) Close() {
+	if m.client != nil {
+		_ = m.client.Close()
+	}
+	m.gatherWorld.Close()
 }
